@@ -56,6 +56,13 @@ func (m *expirationMap[_]) add(key, conflict uint64, expiration time.Time) {
 	m.Lock()
 	defer m.Unlock()
 
+	// The bucket of this expiration may have been swept already (the item
+	// expired while it was waiting in the write buffer). File it in the next
+	// bucket the sweep will visit, otherwise it would never be reclaimed.
+	if bucketNum <= m.lastCleanedBucketNum {
+		bucketNum = m.lastCleanedBucketNum + 1
+	}
+
 	b, ok := m.buckets[bucketNum]
 	if !ok {
 		b = make(bucket)
@@ -84,6 +91,10 @@ func (m *expirationMap[_]) update(key, conflict uint64, oldExpTime, newExpTime t
 	}
 
 	newBucketNum := storageBucket(newExpTime)
+	// See add: never file a key in a bucket the sweep has already passed.
+	if newBucketNum <= m.lastCleanedBucketNum {
+		newBucketNum = m.lastCleanedBucketNum + 1
+	}
 	newBucket, ok := m.buckets[newBucketNum]
 	if !ok {
 		newBucket = make(bucket)
